@@ -71,7 +71,12 @@ def run(ctx):
                 for j, (x, y) in enumerate(zip(a, b)):
                     if x != y:
                         # the disagreement disappears when the `list` pass is left out (hook H2): the lister finding
-                        if tag_known and ("(tag (opt" in op or "(tag (rep" in op) and strip_tags(x) == strip_tags(y):
+                        tagshape = bool(tag_known) and ("(tag (opt" in op or "(tag (rep" in op)
+                        if tagshape and x != y and nolist.get(j) is not None and nolist.get(j) != y and strip_tags(nolist.get(j)) == strip_tags(y) and lister_known:
+                            # both recorded findings at once: without the `list` pass the result is the reference's up to the tags
+                            ctx.known_finding(TAG_ID, "with grammar-extras a tag on an expression that emitted no pair lands on the previous pair (tag_node tags the last token of the queue): x = { \"a\" }  y = { \"b\" }  r = { x ~ #t = y? } on \"a\" tags the pair of x")
+                            ctx.known_finding(LISTER_ID, "optimizer `list` pass rewrites (a ~ b)* ~ a into a ~ (b ~ a)*, which changes the language (e.g. accepts a prefix of \"abab\"); Vm::parse then differs from the documented semantics")
+                        elif tagshape and strip_tags(x) == strip_tags(y):
                             # same pairs and spans, only the tags differ, in a grammar that tags an optional / repeated expression
                             ctx.known_finding(TAG_ID, "with grammar-extras a tag on an expression that emitted no pair lands on the previous pair (tag_node tags the last token of the queue): x = { \"a\" }  y = { \"b\" }  r = { x ~ #t = y? } on \"a\" tags the pair of x")
                         elif wsleak_known and ws_modifies_stack(op):
